@@ -123,6 +123,21 @@ def run_replaysep(ctx, cases, prime, workers=8):
     return byid
 
 
+def pick_primes(cases, n=2):
+    """Primes that divide none of the denominators a + b of the run (Inv(0) would be meaningless)."""
+    sums = set()
+    for c in cases:
+        ex = [exact.dy(e) for s in c["basis"] + c.get("basis2", []) for e in s["exps"]]
+        for a in ex:
+            for b in ex:
+                sums.add((a + b).numerator)
+                sums.add(a.numerator)
+    good = [p for p in tlc.PRIMES if all(x % p for x in sums)]
+    if len(good) < n:
+        raise tlc.MachineryError("not enough usable primes for this run")
+    return good[:n]
+
+
 # ------------------------------------------------------------------------------------------ oracle
 class Fingerprint:
     """Compares the harness' exact tables with TLC's residues (both primes)."""
@@ -376,6 +391,7 @@ def run(pid, tier, seed, only_case=None):
     plan = PLANS[pid]
     ctx = common.Ctx(pid, tier, seed)
     quick = tier == "quick"
+    ctx.write_evidence = only_case is None
     whats = [plan["what"]] if pid != "C08" else ["momentum", "angmom"]
     cases = []
     for what in whats:
@@ -389,7 +405,7 @@ def run(pid, tier, seed, only_case=None):
     if only_case is not None:
         cases = [only_case]
     # ---- TLC
-    primes = tlc.PRIMES[:2]
+    primes = pick_primes(cases)
     fp_cases = cases if not quick else [c for c in cases if c["kind"] == "pair" or c["id"] % 2 == 0]
     if quick:   # bound the residue work per case: at most 2x2 primitive pairs of 2 shell pairs are fingerprinted
         pass
